@@ -793,6 +793,57 @@ def sweep_c12(rng, tier):
                                   "observed": "%d candidates, first difference at #%d" % (len(got), next((i for i, (x, y) in enumerate(zip(got, alone)) if x != y), min(len(got), len(alone)))), "what": "C12 interleaving"})
             except Exception as e:
                 fails.append({"text": ta + " || " + tb, "ts": list(ts), "opts": dict(kw, rule=name), "expected": "no exception", "observed": "%s: %s" % (type(e).__name__, str(e)[:80]), "what": "C12 interleaving"})
+    # 4c. "a function of text, reference time and options": equal-but-not-identical arguments.  Timezone-aware reference times
+    #     that denote one instant in several zones are different reference times (different wall clocks); calls with one of
+    #     them must not influence calls with another.  Oracle: the wall clock alone decides (the naive reference time with the
+    #     same fields, asked first in this process, gives the same result).
+    from datetime import timedelta as _td, timezone as _tzc
+    tzs = [_tzc.utc, _tzc(_td(hours=2)), _tzc(_td(hours=-11)), _tzc(_td(hours=14))]
+    insts = [datetime(2020, 10, 5, 23, 30, tzinfo=_tzc.utc), datetime(2024, 2, 28, 22, 30, tzinfo=_tzc.utc), datetime(2019, 12, 31, 23, 59, 59, tzinfo=_tzc.utc), datetime(2023, 10, 30, 10, 45, tzinfo=_tzc.utc)]
+    txts = ["tomorrow", "gestern", "monday 5th", "friday 13.", "15.", "30.", "5pm", "next friday", "eom", "tuesday", "31.12.", "now", "9-5", "for 3 days", "1.11. for 2 hours"]
+    if tier != "thorough": txts = samp(rng, txts, 8)
+    for t in txts:
+        for inst in insts:
+            want = {}
+            for z in tzs:            # naive wall clocks first
+                loc = inst.astimezone(z)
+                try:
+                    want[z] = norm(stream_digest(t, tuple(loc.timetuple()[:6]), dict(timeout=0)))
+                except Exception as e:
+                    want[z] = "EXC " + type(e).__name__
+            for z in tzs:
+                loc = inst.astimezone(z)
+                try:
+                    from ctparse import ctparse_gen as _cg2
+                    got = norm([( _enc(p.resolution), tuple(str(x) for x in p.production), round(p.score, 9), p.subject, tuple(p.labels)) for p in _cg2(t, ts=loc, timeout=0) if p is not None])
+                except Exception as e:
+                    got = "EXC " + type(e).__name__
+                dist["same instant, other zone"] += 1
+                if got != want[z]:
+                    fails.append({"text": t, "ts": list(loc.timetuple()[:6]), "opts": {"reference_utcoffset_min": int(loc.utcoffset().total_seconds() // 60), "history": "the same text was parsed before at the same instant given in other zones"},
+                                  "expected": "the result for this wall clock (as for the naive reference time with the same fields)", "observed": "differs", "what": "C12 equal-but-not-identical reference times"})
+                    break
+    # 4d. overlapping parses of same-layout texts (same pattern ids and offsets, other content)
+    pairs2 = [("5 March 2017", "6 April 2018"), ("05.03.2017 14:30", "06.04.2018 15:45"), ("monday 5pm", "friday 7pm"), ("in 3 days", "in 5 days"), ("12:30 - 14:15", "11:20 - 16:45"), ("3rd of may", "7th of jun")]
+    for ta, tb in pairs2:
+        for kw in ({}, {"latent_time": False}):
+            try:
+                alone = norm(stream_digest(ta, ts, dict(timeout=0, **kw)))
+                for k in (1, 2):
+                    g = ctparse_gen(ta, ts=to_ts(ts), timeout=0, **kw)
+                    got = []
+                    for _ in range(k):
+                        p = next(g, None)
+                        if p is not None: got.append([_enc(p.resolution), [str(x) for x in p.production], round(p.score, 9), p.subject, list(p.labels)])
+                    list(ctparse_gen(tb, ts=to_ts(ts), timeout=0, **kw))
+                    for p in g:
+                        if p is not None: got.append([_enc(p.resolution), [str(x) for x in p.production], round(p.score, 9), p.subject, list(p.labels)])
+                    dist["same-layout overlaps"] += 1
+                    if norm(got) != alone:
+                        fails.append({"text": ta + " || " + tb, "ts": list(ts), "opts": dict(kw, schedule="A x%d, B complete, A rest" % k), "expected": "stream A as when consumed alone", "observed": "differs", "what": "C12 interleaving (same layout)"})
+                        break
+            except Exception as e:
+                fails.append({"text": ta + " || " + tb, "ts": list(ts), "opts": dict(kw), "expected": "no exception", "observed": "%s: %s" % (type(e).__name__, str(e)[:80]), "what": "C12 interleaving (same layout)"})
     # 5. arguments, scorer model and rule base unchanged
     if snapshot_world() != w0:
         fails.append({"text": "(world)", "ts": list(ts), "opts": {}, "expected": "registry, regex tables and scorer model unchanged by parsing", "observed": "changed", "what": "C12 world"})
